@@ -37,6 +37,8 @@ type Contract struct {
 	PanicTyp  CExpr    // dynamic type id of the value this function panics with (optional)
 	PanicsIf  []Clause // one direction: condition implies panic (the function may also panic otherwise)
 	MayPanic  bool
+	NoIndexPanic   bool // with may_panic: only out-of-range indexing/slicing and division by zero are excluded
+	NoRuntimePanic bool // with may_panic: explicit panics and callee panics are allowed, Go run-time errors are not
 	IntImmutable bool // assumption: nobody mutates the big integer behind a math.Int value this function holds
 	Modifies  []CExpr
 	ModAll    bool
@@ -104,7 +106,7 @@ func NewContractSet() *ContractSet {
 }
 
 var keywords = map[string]bool{"func": true, "global": true, "requires": true, "ensures": true, "ensures_assumed": true, "uses": true, "pow10_max": true, "owns": true, "panics_iff": true, "panics_if": true, "panic_typ": true, "on_panic": true, "define": true,
-	"may_panic": true, "int_values_immutable": true, "modifies": true, "loop": true, "props": true, "trusted": true, "inline": true, "let": true,
+	"may_panic": true, "no_runtime_panic": true, "no_index_panic": true, "int_values_immutable": true, "modifies": true, "loop": true, "props": true, "trusted": true, "inline": true, "let": true,
 	"lemma": true, "pure": true, "package": true, "keeper_iface": true, "var": true, "hyp": true, "concl": true, "assert": true, "end": true}
 
 var funcHdr = regexp.MustCompile(`^func\s+(\([^)]*\)\.)?([A-Za-z0-9_$#\[\],./\-]+)\s*\(([^)]*)\)\s*(.*)$`)
@@ -326,6 +328,12 @@ func (cs *ContractSet) ParseContractText(file, pkg, text string, trusted bool) {
 				cur.MayPanic = true
 			case "int_values_immutable":
 				cur.IntImmutable = true
+			case "no_runtime_panic":
+				cur.NoRuntimePanic = true
+				cur.MayPanic = true
+			case "no_index_panic":
+				cur.NoIndexPanic = true
+				cur.MayPanic = true
 			case "trusted":
 				cur.Trusted = true
 			case "inline":
